@@ -40,7 +40,7 @@ fn parse_entity_class(ctx: &mut ParsingContext<'_>) -> ParseResult<EntityClass> 
 
 pub fn parse_entity_name_list(ctx: &mut ParsingContext<'_>) -> ParseResult<Vec<EntityName>> {
     Ok(expect_token!(ctx.stream, token, token_id,
-        Identifier | StringLiteral => {
+        Identifier | StringLiteral | Character => {
             let mut entity_name_list = Vec::new();
             let mut token = token;
             let mut token_id = token_id;
@@ -49,6 +49,7 @@ pub fn parse_entity_name_list(ctx: &mut ParsingContext<'_>) -> ParseResult<Vec<E
                 let designator = match token.kind {
                     Identifier => token.to_identifier_value(token_id)?.map_into(Designator::Identifier),
                     StringLiteral => token.to_operator_symbol(token_id)?.map_into(Designator::OperatorSymbol),
+                    Character => token.to_character_value(token_id)?.map_into(Designator::Character),
                     _ => unreachable!(""),
                 };
 
@@ -67,7 +68,7 @@ pub fn parse_entity_name_list(ctx: &mut ParsingContext<'_>) -> ParseResult<Vec<E
 
                 if ctx.stream.skip_if_kind(Comma) {
                     token_id = ctx.stream.get_current_token_id();
-                    token = expect_token!(ctx.stream, token, Identifier | StringLiteral => token);
+                    token = expect_token!(ctx.stream, token, Identifier | StringLiteral | Character => token);
                 } else {
                     break entity_name_list;
                 }
